@@ -40,6 +40,14 @@ package badger
 
 //@ ghost var GSavedMeta *rootsMetadata
 
+//@ func loadRootsMetadata
+//@   props C06
+//@   trusted
+//@   modifies nothing
+//@   ensures err != nil ==> result0 == nil
+//@   ensures err == nil ==> result0 != nil && fresh(result0)
+//@   note trusted: reads the version's roots metadata through the transaction into a new object (an empty map if there is none)
+
 //@ func rootsMetadata.save
 //@   props C06
 //@   trusted
@@ -51,8 +59,8 @@ package badger
 //@ func badgerBatch.Commit
 //@   props C06
 //@   requires ba != nil && ba.db != nil
-//@   precall badger/v4\.Txn\)\.CommitAt$ :: !ba.chunk && ba.oldRoot.Hash != hash.EmptyHash() ==> defined(oldRootsMeta) && oldRootsMeta != nil
-//@   precall badger/v4\.Txn\)\.CommitAt$ :: !ba.chunk && ba.oldRoot.Hash != hash.EmptyHash() ==> defined(oldRootsMeta) && GSavedMeta == oldRootsMeta
-//@   precall badger/v4\.Txn\)\.CommitAt$ :: !ba.chunk && ba.oldRoot.Hash != hash.EmptyHash() ==> defined(oldRootsMeta) && inDom(oldRootsMeta.Roots, oldRootHash) && len(oldRootsMeta.Roots[oldRootHash]) >= 1
-//@   precall badger/v4\.Txn\)\.CommitAt$ :: !ba.chunk && ba.oldRoot.Hash != hash.EmptyHash() ==> defined(oldRootsMeta) && oldRootsMeta.Roots[oldRootHash][len(oldRootsMeta.Roots[oldRootHash])-1] == rootHash
+//@   precall badger/v4\.Txn\)\.CommitAt$ :: !old(ba.chunk) && old(ba.oldRoot.Hash) != hash.EmptyHash() ==> defined(oldRootsMeta) && oldRootsMeta != nil
+//@   precall badger/v4\.Txn\)\.CommitAt$ :: !old(ba.chunk) && old(ba.oldRoot.Hash) != hash.EmptyHash() ==> defined(oldRootsMeta) && GSavedMeta == oldRootsMeta
+//@   precall badger/v4\.Txn\)\.CommitAt$ :: !old(ba.chunk) && old(ba.oldRoot.Hash) != hash.EmptyHash() ==> defined(oldRootsMeta) && inDom(oldRootsMeta.Roots, oldRootHash) && len(oldRootsMeta.Roots[oldRootHash]) >= 1
+//@   precall badger/v4\.Txn\)\.CommitAt$ :: !old(ba.chunk) && old(ba.oldRoot.Hash) != hash.EmptyHash() ==> defined(oldRootsMeta) && oldRootsMeta.Roots[oldRootHash][len(oldRootsMeta.Roots[oldRootHash])-1] == rootHash
 //@   note whenever a non-chunk batch with a non-empty old root reaches the metadata commit, the new root has been appended to the old root's derived-root list - also when both hashes are equal (an unchanged root carried into the next version) - and that metadata object is the one saved last. Prune treats a root without derived roots as "lone" and deletes the nodes it created, so a missing link makes a LATER finalized version unreadable once the earlier one is pruned
